@@ -93,6 +93,13 @@ def _self_targets(s):
 
 def check(ctx):
     a = ctx.a
+    # "no Deferred success, delivery or registry change that a well-formed packet did not justify": what a handler does is justified by the
+    # field values the decoder hands it - which are the packet's only if the decoder reads each field where the packet has it (a CONNACK read
+    # from a fixed offset takes a refusal sent with a two-byte length for an acceptance).  C02's S9 instances
+    from .common import run_premise
+    run_premise(ctx, "C02", "E5", "decoders", "the decoders of client-bound packets read every field where the packet has it",
+                "a well-formed packet decodes to other values than it carries: the handler acts on them - a Deferred succeeds, a message is "
+                "delivered or an entry removed that the packet did not justify", only=lambda f: f.rule == "S9")
     ty = types(a)
     caps, pm, _ = capabilities(a)
     dirty = decode_dirty_fields(a.prog)
